@@ -4,7 +4,7 @@
    (step index, tag, ok).  It is extracted to OCaml (volume) and also evaluated by vm_compute
    (cross-validation of the extraction).  No proofs in this file. *)
 From Coq Require Import ZArith List Bool Arith.
-From SpadeV Require Import Num.F64 Num.Decode Num.Decode2 Geom.Pred Gen.Prelude Num.ValidSpec Obs.State Obs.Spec Obs.Query Vmap.Model Cdt.SegSpec Refine.Outer Check.Codes.
+From SpadeV Require Import Num.F64 Num.Decode Num.Decode2 Geom.Pred Gen.Prelude Num.ValidSpec Obs.State Obs.Spec Obs.Query Vmap.Model Cdt.SegSpec Refine.Outer Obs.LineSpec Query.Voronoi Check.Codes.
 Import ListNotations.
 
 (* ------------------------------------------------------------------ parsing the state line *)
@@ -586,6 +586,140 @@ Definition check_split (p n : obs) (a b : Z) (res : list Z) : list (tag * bool) 
   | _, _ => [(T_parse, false)]
   end.
 
+(* ------------------------------------------------------------------ C17: LineIntersectionIterator *)
+Fixpoint parse_items (l : list Z) : option (list litem) :=
+  match l with
+  | [] => Some []
+  | k :: i :: t =>
+      match parse_items t with
+      | Some r =>
+          if (k =? K_x)%Z then Some (IX (Z.to_nat i) :: r)
+          else if (k =? K_v)%Z then Some (IV (Z.to_nat i) :: r)
+          else if (k =? K_o)%Z then Some (IO (Z.to_nat i) :: r)
+          else None
+      | None => None
+      end
+  | _ => None
+  end.
+Definition check_line (p : obs) (args res : list Z) : list (tag * bool) :=
+  match args, res with
+  | [x1; y1; x2; y2], n :: items =>
+      match with_points p [x1; y1; x2; y2], parse_items items with
+      | Some (pts, [a; b], _), Some its =>
+          [(T_lineiter, (length its =? Z.to_nat n) && linespec_b p pts a b its)]
+      | _, _ => [(T_parse, false)]
+      end
+  | _, _ => [(T_parse, false)]
+  end.
+Definition check_lineh (p : obs) (args res : list Z) : list (tag * bool) :=
+  match args, res, obs_points p with
+  | [a; b], n :: items, Some pts =>
+      match parse_items items with
+      | Some its =>
+          let va := Z.to_nat a in let vb := Z.to_nat b in
+          [(T_lineiter, (length its =? Z.to_nat n) && linespec_b p pts (pos pts va) (pos pts vb) its
+                        && match its with IV v0 :: _ => v0 =? va | _ => false end
+                        && match List.rev its with IV v1 :: _ => v1 =? vb | _ => false end)]
+      | None => [(T_parse, false)]
+      end
+  | _, _, _ => [(T_parse, false)]
+  end.
+
+(* ------------------------------------------------------------------ C18 Voronoi view, C19 interpolation *)
+Definition dy_rescale (em : Z) (b : Z) : option dy :=
+  match decode b with Some (m, e) => Some (m, (e - em)%Z) | None => None end.
+(* a coordinate difference reported in real units, as an exact integer on the points' scale (None if not representable) *)
+Definition to_scaled_int (em : Z) (b : Z) : option Z :=
+  match decode b with
+  | Some (m, e) => if (m =? 0)%Z then Some 0%Z else if (em <=? e)%Z then Some (Z.shiftl m (e - em)) else None
+  | None => None
+  end.
+
+Fixpoint vor_edges_ok (s : obs) (pts : list pnt) (em : Z) (n : nat) (l : list Z) : option (bool * list Z) :=
+  match n with
+  | O => Some (true, l)
+  | S n' =>
+    match l with
+    | e :: fr :: to :: dx :: dy_ :: site :: nx :: pv :: rv :: t =>
+        match to_scaled_int em dx, to_scaled_int em dy_, vor_edges_ok s pts em n' t with
+        | Some ix, Some iy, Some (b, rest) =>
+            Some (vor_edge_ok s pts (Z.to_nat e) fr to (ix, iy) (Z.to_nat site) (Z.to_nat nx) (Z.to_nat pv) (Z.to_nat rv) && b, rest)
+        | _, _, _ => None
+        end
+    | _ => None
+    end
+  end.
+Fixpoint vor_ccs_ok (s : obs) (pts : list pnt) (em tol : Z) (n : nat) (l : list Z) : option (bool * list Z) :=
+  match n with
+  | O => Some (true, l)
+  | S n' =>
+    match l with
+    | f :: x :: y :: t =>
+        match dy_rescale em x, dy_rescale em y, vor_ccs_ok s pts em tol n' t with
+        | Some dx, Some dy_, Some (b, rest) =>
+            let f' := Z.to_nat f in
+            Some ((negb (well_conditioned s pts f') || cc_ok s pts tol f' dx dy_) && b, rest)
+        | _, _, _ => None
+        end
+    | _ => None
+    end
+  end.
+Fixpoint vor_faces_ok (s : obs) (n : nat) (l : list Z) : option bool :=
+  match n with
+  | O => match l with [] => Some true | _ => None end
+  | S n' =>
+    match l with
+    | v :: k :: t =>
+        let k' := Z.to_nat k in
+        match vor_faces_ok s n' (skipn k' t) with
+        | Some b => if length (firstn k' t) =? k' then Some (vor_face_ok s (Z.to_nat v) (map Z.to_nat (firstn k' t)) && b) else None
+        | None => None
+        end
+    | _ => None
+    end
+  end.
+Definition check_vor (c : cfg) (p : obs) (res : list Z) : list (tag * bool) :=
+  match res, decode_points_e (coord_bits p) with
+  | nde :: rest, Some (pts, em) =>
+      let tol := if c_f32 c then 1000%Z else 1000000%Z in
+      match vor_edges_ok p pts em (Z.to_nat nde) rest with
+      | Some (b1, kcc :: ni :: r1) =>
+          match vor_ccs_ok p pts em tol (Z.to_nat ni) r1 with
+          | Some (b2, kvf :: nv :: r2) =>
+              match vor_faces_ok p (Z.to_nat nv) r2 with
+              | Some b3 => [(T_voronoi, (Z.to_nat nde =? nH p) && (Z.to_nat ni + 1 =? nF p) && (Z.to_nat nv =? nV p)
+                                         && (kcc =? K_cc)%Z && (kvf =? K_vf)%Z && b1 && b2 && b3)]
+              | None => [(T_parse, false)]
+              end
+          | _ => [(T_parse, false)]
+          end
+      | _ => [(T_parse, false)]
+      end
+  | _, _ => [(T_parse, false)]
+  end.
+
+Fixpoint parse_weights (l : list Z) : option (list (nat * dy)) :=
+  match l with
+  | [] => Some []
+  | v :: w :: t =>
+      match decode w, parse_weights t with
+      | Some d, Some r => Some ((Z.to_nat v, d) :: r)
+      | _, _ => None
+      end
+  | _ => None
+  end.
+Definition check_weights (c : cfg) (p : obs) (natural : bool) (args res : list Z) : list (tag * bool) :=
+  match args, res with
+  | [x; y], n :: ws =>
+      match with_points p [x; y], parse_weights ws with
+      | Some (pts, [q], _), Some wl =>
+          let tol := if c_f32 c then 200%Z else 10000000%Z in
+          [(T_interp, (length wl =? Z.to_nat n) && (if natural then nnw_ok p pts tol q wl else bary_ok p pts tol q wl))]
+      | _, _ => [(T_parse, false)]
+      end
+  | _, _ => [(T_parse, false)]
+  end.
+
 Definition check_op (c : cfg) (p : obs) (op : Z) (args res : list Z) (n : obs) (aux : option (list Z)) : list (tag * bool) :=
   if existsb (Z.eqb K_skip) res || existsb (Z.eqb K_panic) res || existsb (Z.eqb K_hang) res then [] else
   if (op =? OP_ins)%Z then
@@ -620,6 +754,11 @@ Definition check_op (c : cfg) (p : obs) (op : Z) (args res : list Z) (n : obs) (
   else if (op =? OP_vcirc)%Z then check_circ p false args res
   else if (op =? OP_ecirc)%Z then check_circ p true args res
   else if (op =? OP_hull)%Z then check_hull p res
+  else if (op =? OP_vor)%Z then check_vor c p res
+  else if (op =? OP_bary)%Z then check_weights c p false args res
+  else if (op =? OP_nnw)%Z then check_weights c p true args res
+  else if (op =? OP_line)%Z then check_line p args res
+  else if (op =? OP_lineh)%Z then check_lineh p args res
   else if (op =? OP_refine)%Z then check_refine p n args res
   else if (op =? OP_split)%Z then match args with [a; b] => check_split p n a b res | _ => [(T_parse, false)] end
   else if (op =? OP_msq)%Z then check_msq args res
